@@ -146,4 +146,15 @@ RwNormalOk(gen, f, f2, lat) ==
         ELSE ~f2.recs[t].nz /\ UnitAlong(f2.recs[t].n, gen[t].n)
 
 RwAttrOk(gen, f2) == \A t \in 1..Len(gen) : gen[t].a = 0 => f2.recs[t].a = 0
+
+(***************************************************************************)
+(* Record level API (stl.Read / stl.Write, "sb" lines).  Nothing stands    *)
+(* between the file and the records here, so "reproduces the triangle      *)
+(* records" is exact: what Read returns (bin, projected like a file's      *)
+(* records, normals as float32 bit patterns) IS the record list of the     *)
+(* file, attribute words included, and writing it again gives a file with  *)
+(* the same records.                                                       *)
+(***************************************************************************)
+BinRecordsOk(f, bin) == bin = f.recs
+BinRewriteOk(f, f2) == f2.recs = f.recs
 =============================================================================
